@@ -143,56 +143,14 @@ def check_case(acc, case):
     acc.violation(m2[0], f"{m2[1]} (shrunk to {len(small)} ops: {small})", {"seed": case["seed"], "ops": small})
 
 
-SETUP = [
-    ["set", "src/d", ["arr", [1, 2, 3]]], ["sattr", "src/d", "da", ["int", 1]], ["set", "src/g/e", ["int", 5]],
-    ["sattr", "src/g", "ga", ["str", "x"]], ["sattr", "src/g/e", "ea", ["bytes", "6162"]], ["grp", "src/g/empty"],
-    ["sattr", "src/g/empty", "xa", ["arr", [1.5]]], ["sattr", "src", "sa", ["int", 9]], ["set", "other/o", ["str", "o"]],
-    ["meta", "/src", "fam.base", [0, 1, 0], 1, "fresh"], ["meta", "/src/g", "fam.mid", [0, 1, 0], 2, "fresh"],
-    ["meta", "/src/g/e", "fam.base", [0, 2, 0], 3, "fresh"], ["meta", "/src/d", "fam.leaf", [0, 1, 0], 4, "fresh"],
-]
-
-
-def matrix_histories():
-    """Systematic copy/move family: every source shape x destination form x option combination x patch-boundary placement,
-    each followed by touches of the copy and deletion of the original."""
-    out = []
-    optss = [{}, {"without_attrs": True}, {"without_meta": True}, {"without_attrs": True, "without_meta": True}]
-    for src in ("src", "src/g", "src/d", "src/g/e"):
-        for bound in ("none", "after-setup", "both"):
-            for opts in optss:
-                for form in ("path", "deep-path", "obj", "obj-named", "at-handle"):
-                    if form == "path":
-                        act = ["copy2", src, "dst", opts]
-                        dst = "dst"
-                    elif form == "deep-path":
-                        act = ["copy2", src, "deep/new/dst", opts]
-                        dst = "deep/new/dst"
-                    elif form == "obj":
-                        act = ["copyobj", src, "other", None, opts]
-                        dst = "other/" + src.split("/")[-1]
-                    elif form == "obj-named":
-                        act = ["copyobj", src, "/", "named", opts]
-                        dst = "named"
-                    else:
-                        if opts or "/" not in src:
-                            continue
-                        par, leaf = src.rsplit("/", 1)
-                        act = ["at", "/" + par, ["copy", leaf, "copied-here"]]  # relative source and destination from the parent handle
-                        dst = par + "/copied-here"
-                    ops = list(SETUP) + ([["commit"]] if bound != "none" else []) + [act] + ([["commit"]] if bound == "both" else [])
-                    ops += [["sattr", dst, "touched", ["int", 1]], ["del", src], ["commit"], ["sattr", dst, "again", ["int", 2]]]
-                    out.append(ops)
-            for bound2 in ("none", "after-setup"):
-                out.append(list(SETUP) + ([["commit"]] if bound2 != "none" else []) + [["move", src, "moved/to"], ["commit"], ["sattr", "moved/to", "t", ["int", 1]],
-                                                                                      ["copy2", "moved/to", "back", {}], ["del", "moved"]])
-    return out
+from vlib.matrix import matrix_histories  # noqa: E402
 
 
 def units(tier, seed):
-    n = 150 if tier == "quick" else 2400
+    n = 120 if tier == "quick" else 2400
     us = [{"seed": seed * 30011 + i, "n": 6} for i in range(0, n, 6)]
     nm = len(matrix_histories())
-    idx = list(range(nm)) if tier == "thorough" else [i for i in range(nm) if (i + seed) % 4 == 0]
+    idx = list(range(nm)) if tier == "thorough" else [i for i in range(nm) if (i + seed) % 8 == 0]
     us += [{"matrix": idx[i:i + 4], "seed": seed} for i in range(0, len(idx), 4)]
     return us
 
